@@ -3,6 +3,7 @@ package simkit
 import (
 	"encoding/json"
 	"fmt"
+	"github.com/aergoio/aergo/v2/zz_verif/simgo"
 	"os"
 	"path/filepath"
 	"runtime/debug"
@@ -22,6 +23,7 @@ func Exec(w World, c *Case, generate bool, verbose bool) (out *Outcome, trace []
 	}
 	x := NewCtx(c, rng)
 	x.Verbose = verbose
+	simgo.ResetMaps(c.Seed | 1)
 	defer func() {
 		if r := recover(); r != nil {
 			stack := string(debug.Stack())
